@@ -130,6 +130,20 @@ func c15Short(b []byte) string {
 	return fmt.Sprintf("%x..(%d bytes)", b[:48], len(b))
 }
 
+// c15Has reports whether the white-box wrapper of that name is bound to the tree under test (cmd/vcheck
+// renders a wrapper that does not compile against the tree as a stub; what cannot be reached is skipped
+// and counted under the class "not-reachable:<wrapper>").
+func c15Has(name string) bool {
+	for _, n := range corebgp.VerifStubbed {
+		if n == name {
+			return false
+		}
+	}
+	return true
+}
+
+func c15Unreachable(name string) c15Verdict { return c15Verdict{Class: "not-reachable:" + name} }
+
 // c15Judge runs the codecs on one case. A panic inside corebgp is a
 // violation; a panic of the check itself is an engine failure.
 func c15Judge(cs *c15Case) (v c15Verdict) {
@@ -173,6 +187,9 @@ func c15JudgeNotifValue(code, sub byte, data []byte, dataNil bool) c15Verdict {
 	} else if data == nil {
 		data = []byte{}
 	}
+	if !c15Has("encodeNotification") {
+		return c15Unreachable("encodeNotification")
+	}
 	in := append([]byte(nil), data...) // the encoder must not modify its input either
 	enc, err := corebgp.VerifEncodeNotification(&corebgp.Notification{Code: code, Subcode: sub, Data: data})
 	if err != nil {
@@ -180,6 +197,12 @@ func c15JudgeNotifValue(code, sub byte, data []byte, dataNil bool) c15Verdict {
 	}
 	if len(enc) < wire.HeaderLen {
 		return c15Bad("value", "encode-no-header", "encode of NOTIFICATION (%d,%d,%d data bytes) returned %d bytes", code, sub, len(data), len(enc))
+	}
+	if !c15Has("decodeNotification") {
+		if ref := wire.Notification(code, sub, in); !bytes.Equal(enc, ref) {
+			return c15Bad("value", "encoding-not-rfc", "NOTIFICATION (%d,%d,data %s) encoded as %s, RFC 4271 encoding is %s", code, sub, c15Short(in), c15Short(enc), c15Short(ref))
+		}
+		return c15Unreachable("decodeNotification")
 	}
 	dec, err := corebgp.VerifDecodeNotification(c15Exact(enc[wire.HeaderLen:]))
 	if err != nil || dec == nil {
@@ -201,8 +224,14 @@ func c15JudgeNotifValue(code, sub byte, data []byte, dataNil bool) c15Verdict {
 // no message; accepted strings re-encode to themselves.
 func c15JudgeNotifBytes(b []byte) c15Verdict {
 	b = c15Exact(b)
+	if !c15Has("decodeNotification") {
+		return c15Unreachable("decodeNotification")
+	}
 	dec, err := corebgp.VerifDecodeNotification(b)
 	isNil, merr := corebgp.VerifMessageFromBytesNil(b, wire.TypeNotification)
+	if !c15Has("messageFromBytes") {
+		isNil, merr = err != nil, err
+	}
 	if (err == nil) != (merr == nil) {
 		return c15Bad("bytes", "decode-inconsistent", "Notification.decode and messageFromBytes disagree on %s: %v / %v", c15Short(b), err, merr)
 	}
@@ -218,11 +247,20 @@ func c15JudgeNotifBytes(b []byte) c15Verdict {
 	if err != nil {
 		// b is the RFC encoding of (b[0], b[1], b[2:]): the value round trip decides
 		v := c15JudgeNotifValue(b[0], b[1], b[2:], false)
+		if v.Aspect == "" && !c15Has("encodeNotification") {
+			return c15Bad("bytes", "rejects-wellformed", "NOTIFICATION body %s (code, subcode, data) is rejected: %v", c15Short(b), err)
+		}
 		if v.Aspect == "" {
 			return c15Bad("bytes", "rejects-own-encoding", "NOTIFICATION body %s is rejected (%v) although it is what encode produces", c15Short(b), err)
 		}
 		v.Class = "bytes-rejected"
 		return v
+	}
+	if !c15Has("encodeNotification") {
+		if dec.Code != b[0] || dec.Subcode != b[1] || !bytes.Equal(dec.Data, b[2:]) {
+			return c15Bad("bytes", "decode-not-rfc", "NOTIFICATION body %s decoded as (%d,%d,%s)", c15Short(b), dec.Code, dec.Subcode, c15Short(dec.Data))
+		}
+		return c15Verdict{Class: "bytes-accepted:reencode-not-reachable", Nontrivial: true}
 	}
 	enc, err := corebgp.VerifEncodeNotification(dec)
 	if err != nil {
@@ -319,6 +357,9 @@ func c15OpenText(x *refmodel.OpenValue) string {
 // the RFC 4271 4.2 / RFC 5492 4 encoding. For an unrepresentable x an error
 // is fine; output that does not strictly parse back to x is not.
 func c15JudgeOpenValue(x *refmodel.OpenValue) c15Verdict {
+	if !c15Has("encodeOpen") {
+		return c15Unreachable("encodeOpen")
+	}
 	enc, err := corebgp.VerifEncodeOpen(c15ToVerif(x))
 	// not an OPEN value in the sense of the check (see Assume): only recorded
 	notJudged := ""
@@ -334,7 +375,9 @@ func c15JudgeOpenValue(x *refmodel.OpenValue) c15Verdict {
 		outcome := "encode-error"
 		if err == nil && len(enc) >= wire.HeaderLen {
 			outcome = "encoded-and-decoded"
-			if _, derr := corebgp.VerifDecodeOpen(c15Exact(enc[wire.HeaderLen:])); derr != nil {
+			if !c15Has("decodeOpen") {
+				outcome = "encoded"
+			} else if _, derr := corebgp.VerifDecodeOpen(c15Exact(enc[wire.HeaderLen:])); derr != nil {
 				outcome = "encoded-but-decode-error"
 			}
 		}
@@ -350,6 +393,8 @@ func c15JudgeOpenValue(x *refmodel.OpenValue) c15Verdict {
 			why = "OPEN body " + c15Short(body)
 			if f := refmodel.OpenFault(body); f != "" {
 				why += " is malformed (" + f + ")"
+			} else if !c15Has("decodeOpen") {
+				why += " is well-formed"
 			} else if dec, derr := corebgp.VerifDecodeOpen(body); derr != nil {
 				why += " is rejected by the decoder"
 			} else {
@@ -364,6 +409,12 @@ func c15JudgeOpenValue(x *refmodel.OpenValue) c15Verdict {
 	}
 	if len(enc) < wire.HeaderLen {
 		return c15Bad("representable", "encode-no-header", "encode of %s returned %d bytes", c15OpenText(x), len(enc))
+	}
+	if !c15Has("decodeOpen") {
+		if ref := wire.Frame(wire.TypeOpen, refmodel.OpenBodyOf(x)); !bytes.Equal(enc, ref) {
+			return c15Bad("representable", "encoding-not-rfc", "%s encoded as %s, RFC encoding is %s", c15OpenText(x), c15Short(enc), c15Short(ref))
+		}
+		return c15Unreachable("decodeOpen")
 	}
 	dec, err := corebgp.VerifDecodeOpen(c15Exact(enc[wire.HeaderLen:]))
 	if err != nil || dec == nil {
@@ -388,9 +439,15 @@ func c15JudgeOpenBytes(b []byte) c15Verdict {
 	if (fault == "") != (rerr == nil) {
 		panic(fmt.Sprintf("C15: the two reference parsers disagree on %x: %q / %v", b, fault, rerr))
 	}
+	if !c15Has("decodeOpen") {
+		return c15Unreachable("decodeOpen")
+	}
 	in := append([]byte(nil), b...) // the decoded capabilities alias b
 	dec, err := corebgp.VerifDecodeOpen(b)
 	isNil, merr := corebgp.VerifMessageFromBytesNil(b, wire.TypeOpen)
+	if !c15Has("messageFromBytes") {
+		isNil, merr = err != nil, err
+	}
 	if (err == nil) != (merr == nil) {
 		return c15Bad("bytes", "decode-inconsistent", "openMessage.decode and messageFromBytes disagree on %s: %v / %v", c15Short(b), err, merr)
 	}
@@ -432,6 +489,9 @@ func c15JudgeOpenBytes(b []byte) c15Verdict {
 		}
 		// b is the RFC encoding of the representable value x: the value round trip decides
 		v := c15JudgeOpenValue(x)
+		if v.Aspect == "" && !c15Has("encodeOpen") {
+			return c15Bad("wellformed", "rejects-wellformed", "well-formed OPEN body %s (%s) is rejected: %v", c15Short(in), c15OpenText(x), err)
+		}
 		if v.Aspect == "" {
 			return c15Bad("wellformed", "rejects-own-encoding", "OPEN body %s is rejected (%v) although it is what encode produces for %s", c15Short(in), err, c15OpenText(x))
 		}
@@ -440,6 +500,12 @@ func c15JudgeOpenBytes(b []byte) c15Verdict {
 	}
 	// accepted: what the decoder cannot hold it must not accept, and the
 	// result must re-encode to the input
+	if !c15Has("encodeOpen") {
+		if d := c15OpenDiff(dec, x); d != "" && dontCare == "" {
+			return c15Bad("wellformed", "decode-not-rfc", "OPEN body %s decoded with %s", c15Short(in), d)
+		}
+		return c15Verdict{Class: "wellformed-accepted:reencode-not-reachable", Nontrivial: true}
+	}
 	enc, eerr := corebgp.VerifEncodeOpen(dec)
 	if eerr != nil {
 		return c15Bad("wellformed", "reencode-error", "decoder accepted OPEN body %s but re-encoding failed: %v", c15Short(in), eerr)
@@ -1215,7 +1281,7 @@ func (r *c15Run) helpers() {
 // consecutive values of a mixed list, all are encoded first and compared with the
 // reference encodings afterwards.
 func c15Retention(c *harness.Ctx) {
-	if c.Shard != 0 {
+	if c.Shard != 0 || !c15Has("encodeNotification") || !c15Has("encodeOpen") {
 		return
 	}
 	type val struct {
@@ -1275,6 +1341,10 @@ func c15Check(c *harness.Ctx) {
 	r.openBytes()
 	r.helpers()
 	c15Retention(c)
+	c.Res.Extra["min_wrappers_not_bindable"] = float64(len(corebgp.VerifStubbed))
+	if len(corebgp.VerifStubbed) > 0 {
+		c.Res.Exhaustive = false // part of the stated input space could not be judged on this tree
+	}
 	for k, n := range r.classes {
 		c.Res.Extra[k[0]+":"+k[1]] = float64(n)
 	}
